@@ -63,6 +63,11 @@ fn tuple_check(case: &Value, stats: &mut Stats) -> CheckResult {
         "Move::new({:?}, {}, {}, {}) accepted = {} but geometric well-formedness = {}",
         k, cell, s, d, got.is_ok(), want
     );
+    // the unchecked constructor followed by the well-formedness test must agree with the checked constructor
+    // (calling is_well_formed and the getters is explicitly allowed on moves that are not well-formed)
+    let raw = unsafe { Move::new_unchecked(k, cell, s, d) };
+    ensure!(raw.is_well_formed() == want, "new_unchecked({:?}, {}, {}, {}).is_well_formed() = {} but geometric well-formedness = {}", k, cell, s, d, raw.is_well_formed(), want);
+    ensure!(raw.kind() == k && raw.src_cell() == cell && raw.src() == s && raw.dst() == d, "getters of an unchecked move disagree with its arguments");
     if let Ok(m) = got {
         ensure!(m.is_well_formed(), "constructed move reports itself not well-formed");
         ensure!(m.kind() == k && m.src_cell() == cell && m.src() == s && m.dst() == d, "getters disagree with constructor arguments");
@@ -85,6 +90,23 @@ fn tuples_driver(_ctx: &RunCtx, stats: &mut Stats, rep: &mut Reporter) {
         }
     });
     stats.add("accepted_tuples", all_wellformed().len() as u64);
+    // named constructors
+    for (c, rc) in [(owlchess::Color::White, Col::W), (owlchess::Color::Black, Col::B)] {
+        for (side, k, file) in [(owlchess::types::CastlingSide::King, MoveKind::CastlingKingside, 6i8), (owlchess::types::CastlingSide::Queen, MoveKind::CastlingQueenside, 2i8)] {
+            let m = Move::from_castling(c, side);
+            let ok = m.is_well_formed()
+                && m.kind() == k
+                && cell_to_man(m.src_cell()) == Some((rc, Pc::K))
+                && sq_from_lib(m.src()) == mk_sq(4, rc.home_rank()).unwrap()
+                && sq_from_lib(m.dst()) == mk_sq(file, rc.home_rank()).unwrap();
+            if !ok {
+                rep(json!({"from_castling": format!("{:?} {:?}", c, side)}), Failure::new(format!("Move::from_castling({:?}, {:?}) = {}", c, side, mv_desc(&m))));
+            }
+        }
+    }
+    if !(Move::NULL.is_well_formed() && Move::default() == Move::NULL && Move::NULL.kind() == MoveKind::Null) {
+        rep(json!({"null": true}), Failure::new("Move::NULL is not the well-formed default null move"));
+    }
 }
 
 fn multiset_eq(a: &[Move], b: &[Move]) -> bool {
